@@ -6,9 +6,10 @@ sys.path.insert(0, VERIF)
 os.chdir(VERIF)
 ids = [json.loads(l)["id"] for l in open("properties.jsonl")]
 checks, na = [], []
+enabled = set(open("tools/enabled.txt").read().split())
 for pid in ids:
     path = f"pbt/props/{pid.lower()}.py"
-    if not os.path.exists(path):
+    if pid not in enabled or not os.path.exists(path):
         na.append({"property_id": pid, "reason": "check not built yet (work in progress; planned in DESIGN.md section 3)"})
         continue
     mod = importlib.import_module(f"pbt.props.{pid.lower()}")
